@@ -85,12 +85,49 @@ def run(ctx, R, tier):
     cfg = ctx.cfg(f)
     rd = ctx.rd(f)
 
+    def gate_value(expr, node, depth=0):
+        """is `expr` (evaluated at CFG node) certainly a value produced by _get_attribute?"""
+        if depth > 3:
+            return False
+        if isinstance(expr, ast.Call) and ctx.is_call_to(expr, f, GATE):
+            return True
+        if isinstance(expr, ast.Name):
+            defs = rd.reaching(node, expr.id)
+            return bool(defs) and all(d.kind == "assign" and d.value is not None and gate_value(d.value, d.node, depth + 1) for d in defs)
+        if isinstance(expr, ast.Subscript) and isinstance(expr.value, ast.Name):
+            # element of a local container whose every element came from the gate (e.g. a dict of pre-resolved methods)
+            cont = expr.value.id
+            defs = rd.reaching(node, cont)
+            if not defs:
+                return False
+            for d in defs:
+                v = d.value
+                if d.kind != "assign" or v is None:
+                    return False
+                if isinstance(v, ast.DictComp):
+                    if not gate_value(v.value, d.node, depth + 1):
+                        return False
+                elif isinstance(v, (ast.ListComp, ast.GeneratorExp)):
+                    if not gate_value(v.elt, d.node, depth + 1):
+                        return False
+                elif isinstance(v, ast.Dict):
+                    if not v.values or not all(gate_value(x, d.node, depth + 1) for x in v.values):
+                        return False
+                else:
+                    return False
+            for st, t, k in stores_in(f.node):
+                if isinstance(t, ast.Subscript) and isinstance(t.value, ast.Name) and t.value.id == cont and k == "assign":
+                    if not gate_value(st.value, cfg.nodes_for(st)[0], depth + 1):
+                        return False
+            return True
+        return False
+
     def from_gate(node, name):
         defs = rd.reaching(node, name)
         if not defs:
             return False, "no definition reaches"
         for d in defs:
-            if not (d.kind == "assign" and isinstance(d.value, ast.Call) and ctx.is_call_to(d.value, f, GATE)):
+            if not (d.kind == "assign" and d.value is not None and gate_value(d.value, d.node)):
                 return False, "`%s` may hold a value not produced by _get_attribute (defined by %s at %s)" % (
                     name, d.kind, f.loc(d.node.ast) if d.node is not None else "parameter")
         return True, ""
